@@ -37,6 +37,10 @@ def mutants(prog):
         ("getitem: ellipsis returns first grid for all", DI, "ImageBatch.__getitem__", "return self._make_instance(self.tensor(), self._grid)", "return self._make_instance(self.tensor(), self._grid[:1])", "T19."),
         ("iter: first grid", DI, "ImageBatch.__iter__", "yield self._make_subitem(data, self._grid[index])", "yield self._make_subitem(data, self._grid[0])", "T19."),
         ("flow copy drops axes", DF, "FlowFields._make_instance", "axes or self._axes", "axes", "T19."),
+        ("pickle: storage offset dropped", "deepali.data.tensor", "DataTensor.__reduce_ex__", "self.storage_offset()", "0", "T19.pickle"),
+        ("pickle: attribute dict dropped", "deepali.data.tensor", "_rebuild_from_type", "ret.__dict__ = dict", "pass", "T19.pickle"),
+        ("collate: one grid per sample", "deepali.data.collate", "collate_samples", "grid = tuple((grid for flow_field in flow_fields for grid in flow_field.grids()))", "grid = tuple((flow_field.grid() for flow_field in flow_fields))", "T19.collate"),
+        ("collate: image grids of the first sample", "deepali.data.collate", "collate_samples", "grid = tuple((image.grid() for image in images))", "grid = tuple((images[0].grid() for image in images))", "T19.collate"),
     ]
     for name, mod, fn, old, new, expect in specs:
         ov = source_sub(prog, mod, fn, old, new)
